@@ -146,6 +146,106 @@ def check_zero_mask_preserved(p, report, funcs, facts):
                            "zero (0 ** 0 == 1): an earlier pick keeps positive sampling mass")
 
 
+SHAPE_ONLY = {"ones_like", "zeros_like", "full_like", "empty_like", "ones", "zeros", "full", "empty", "len", "arange"}
+
+
+def _value_names(e):
+    """Names whose VALUES an expression depends on: arguments of shape-only
+    constructors (ones_like(x), len(x), x.shape) are not value uses."""
+    out = set()
+
+    def walk(n):
+        if isinstance(n, ast.Call) and c01.callname(n) in SHAPE_ONLY:
+            for k in n.keywords:
+                if k.arg == "fill_value":
+                    walk(k.value)
+            if c01.callname(n) in ("full", "full_like") and len(n.args) >= 2:
+                walk(n.args[1])
+            return
+        if isinstance(n, ast.Attribute) and n.attr in ("shape", "ndim", "size", "dtype"):
+            return
+        if isinstance(n, ast.Name):
+            out.add(n.id)
+        for c in ast.iter_child_nodes(n):
+            walk(c)
+    walk(e)
+    return out
+
+
+def check_sampled_is_recorded(p, report, funcs, facts):
+    """R2.4: for a sampling-based selection the distribution handed to
+    choice(p=P) is the one recorded in the returned row."""
+    for f in funcs:
+        ff = facts[id(f.node)]
+        retu, retu_seeds = returned_utility_names(f.node, ff)
+        if not retu_seeds:
+            continue
+        for S in ast.walk(f.node):
+            if not (isinstance(S, ast.Call) and c01.callname(S) == "choice"):
+                continue
+            pk = [k.value for k in S.keywords if k.arg == "p"]
+            if not pk or not isinstance(pk[0], ast.Name):
+                continue
+            # the draw must produce returned indices
+            tree = FuncTree(f.node)
+            s_stmt = tree.stmt_of(S)
+            tg = set()
+            if isinstance(s_stmt, ast.Assign):
+                for t in s_stmt.targets:
+                    b = base_name(t)
+                    if b:
+                        tg.add(b)
+            if not ((forward_closure(tg, ff.vedges) | tg) & ff.ret_closure):
+                continue
+            P = pk[0].id
+            lo, hi = s_stmt.lineno, getattr(s_stmt, "end_lineno", s_stmt.lineno)
+            # (a) stores of P (or of an expression of P) into a returned row
+            recs = []
+            for n in ast.walk(f.node):
+                if isinstance(n, ast.Assign) and n is not s_stmt and P in _value_names(n.value):
+                    for t in n.targets:
+                        b = base_name(t)
+                        if b in retu and b != P:
+                            recs.append(n)
+            rebinds = [n for n in ast.walk(f.node)
+                       if isinstance(n, ast.Assign) and any(isinstance(t, ast.Name) and t.id == P for t in n.targets)]
+            construct = f"distribution of {site_id(S, 60)} is the recorded row"
+            if recs:
+                bad = None
+                for r in recs:
+                    a, b = sorted((r.lineno, s_stmt.lineno))
+                    for m in rebinds:
+                        if a < m.lineno < b or (m.lineno == b and m is not r and m is not s_stmt and False):
+                            bad = (r, m)
+                    if bad is None:
+                        break
+                else:
+                    r, m = bad
+                    report.add("R2.4", f.qual, construct, f"{f.file}:{m.lineno}", False,
+                               detail=f"`{norm_stmt(m, 60)}` rebinds the distribution between the draw and the row store "
+                                      f"`{norm_stmt(r, 50)}`: the recorded row is not what was sampled from")
+                    continue
+                report.add("R2.4", f.qual, construct, f"{f.file}:{S.lineno}", True,
+                           detail=f"row store `{norm_stmt(recs[0], 60)}` with no rebinding of `{P}` in between")
+                continue
+            # (b) no store of P: every definition of P is a view of the row or
+            # is computed from the values the recorded rows hold
+            row_src = set(retu)
+            bad = None
+            for m in rebinds:
+                v = m.value
+                view = isinstance(v, (ast.Subscript, ast.Name)) and base_name(v) in retu
+                vals = _value_names(v)
+                derived = bool(vals & row_src) or bool(closure(vals & ff.locs, ff.vedges) & retu_seeds)
+                selfref = P in vals  # P = P / s keeps whatever P was
+                if not (view or derived or selfref):
+                    bad = m
+            report.add("R2.4", f.qual, construct, f"{f.file}:{(bad or S).lineno}", bad is None,
+                       detail=f"every definition of `{P}` is a view of, or computed from, the returned rows" if bad is None
+                       else f"`{norm_stmt(bad, 60)}` gives the draw a distribution that is never recorded in the "
+                            "returned utilities: the chosen sample can have zero mass in its row")
+
+
 def run(p, report, tier):
     report.rule("R2.1", "within one iteration of a selection loop the NaN mask of the current pick is applied only "
                 "after the returned row was snapshotted (or to an array that is not returned), and masks of earlier "
@@ -163,11 +263,17 @@ def run(p, report, tier):
     report.rule("R2.3", "the exclusion of earlier picks reaches the selection on every path (shared R1.4m), positions "
                 "selected over a shrunk pool are translated (shared R1.6), and a zero-probability mask is not followed "
                 "by a transformation that does not preserve zero (power, exp, additive shift) before the draw", floor=12)
-    sub = c01.Report_proxy(report, {"R1.4m": "R2.3", "R1.6": "R2.3"})
+    sub = c01.Report_proxy(report, {"R1.4m": "R2.3", "R1.6": "R2.3", "R1.4c": "R2.3"})
     c01.check_exclusion_mechanisms(p, sub, funcs, facts)
+    c01.check_carried_exclusion(p, sub, funcs, facts)
     from . import c08
     c08.check_shrinking_pool(p, sub, funcs, "R1.6")
     check_zero_mask_preserved(p, report, funcs, facts)
+    report.rule("R2.4", "for a sampling-based selection (generator.choice with p=P feeding the returned indices) the "
+                "distribution sampled from is the one recorded: a store of P into the returned row with no rebinding "
+                "of P between the store and the draw, or every definition of P is a view of / computed from the "
+                "values of the returned rows (shape-only constructors do not count)", floor=3)
+    check_sampled_is_recorded(p, report, funcs, facts)
     report.assumptions += [
         "statement order inside a loop body is judged by structural dominance (no goto)",
         "the numerical arg-max relation itself is the contract of rand_argmax (C18)",
